@@ -35,6 +35,7 @@ for n in $names; do rm -f ./*.o; echo "=== $n"; SAN=
       cc_objs $H/mon_t.c $V/acquire.c $V/runtime/channel.c $V/runtime/throttler.c $V/runtime/source.c $V/runtime/filter.c $V/runtime/sink.c $V/runtime/vfslice.c $V/runtime/frame_iterator.c $PLAT $PROPS $C/acquire-device-hal/device/hal/camera.c $C/acquire-device-hal/device/hal/driver.c $C/acquire-device-hal/device/hal/loader.c $C/acquire-device-hal/device/hal/storage.c; clang++ -g -w -std=gnu++20 $INC -c $C/acquire-device-hal/device/hal/device.manager.cpp && clang++ ./*.o -o t -lpthread -ldl -lm && ./t 2>&1 | grep -v 'Failed to load\|^$' | tail -14 ;;
  filt) clang $CF $H/filt_t.c $V/runtime/filter.c $V/runtime/channel.c $V/runtime/throttler.c $V/runtime/frame_iterator.c $V/runtime/vfslice.c $PLAT $C/acquire-device-properties/device/props/components.c -o t -lpthread -ldl -lm && timeout 30 ./t 2>&1 | tail -3 ;;
  close) clang $CF -fsanitize=address $H/close_t.c $H/stub.c $C/acquire-device-hal/device/hal/storage.c $C/acquire-device-hal/device/hal/driver.c $D/storage/trash.c $C/acquire-device-properties/device/props/storage.c $C/acquire-device-properties/device/props/device.c $C/acquire-core-logger/logger.c -o t && ./t 2>&1 | head -6 ;;
+ devnull) clang $CF $H/devnull_t.c $PLAT -o t -lpthread -ldl && ./t 2>&1 | tail -2 ;;
  errnoclobber) clang $CF $H/errnoclobber_t.c $PLAT -o t -lpthread -ldl && ./t 2>&1 | tail -3 ;;
  getset) clang $CF $H/getset_t.c $D/storage/raw.c $C/acquire-device-properties/device/props/storage.c $PLAT -o t -lpthread -ldl && ./t </dev/null 2>&1 | tail -5; clang $CF -fsanitize=address $H/getset_t.c $D/storage/raw.c $C/acquire-device-properties/device/props/storage.c $PLAT -o t -lpthread -ldl && ASAN_OPTIONS=detect_leaks=0 ./t dims </dev/null 2>&1 | grep -E "ERROR|DEFECT|ok$|#[0-4] " | head -8 ;;
  badtype) SAN=-fsanitize=address; cc_objs $H/badtype_t.c $D/simcams/simulated.camera.c $D/simcams/3rdParty/pcg-c-basic-0.9/pcg_basic.c $PLAT $C/acquire-device-properties/device/props/components.c; clang++ -g -w -std=gnu++20 $SAN $INC -c $D/simcams/popcount.cpp $D/simcams/imfill.pattern.cpp && clang++ $SAN ./*.o -o t -lpthread -ldl -lm && ./t 2>&1 | grep -E "ERROR|returned|in effect|ok:|#[0-3] " | head -10 ;;
